@@ -590,7 +590,7 @@ def main(engine, argv=None):
 
     for item in stuck_items[:3]:
         violation = confirm_wall_hang(engine, item,
-                                      conf.get('hang_confirm_s', 120))
+                                      conf.get('hang_confirm_s', 600))
 
         if violation is None:
             # Slow, not hung (a loaded machine): the run was cut short, which
